@@ -106,6 +106,45 @@ class HarnessError(Exception):
     pass
 
 
+def make_sweep(name, configs, check, nslices=16):
+    """A Part that ENUMERATES a finite list of configurations completely in every tier.
+
+    `configs()` returns the list of case dicts, `check(case) -> R` is the ordinary per-case check.  The only drawn
+    value is a slice index (sampled_from(range(nslices)), which Hypothesis exhausts); slice k runs every
+    configuration with index % nslices == k.  Runs on one shard.  A replay re-runs the whole slice.
+    """
+    from hypothesis import strategies as st
+
+    def strat():
+        # each shard enumerates its own slices (VERIF_SHARD / VERIF_NSHARDS are set by the worker); together the
+        # shards cover every slice exactly once
+        shard = int(os.environ.get("VERIF_SHARD", "0"))
+        nsh = int(os.environ.get("VERIF_NSHARDS", "1"))
+        mine = [k for k in range(nslices) if k % nsh == shard] or [-1]
+        return st.builds(lambda k: {"slice": k}, st.sampled_from(mine))
+
+    def chk(case):
+        r = R()
+        k = case["slice"]
+        n = 0
+        for i, c in enumerate(configs()):
+            if i % nslices != k:
+                continue
+            c = dict(c)
+            c.setdefault("prelude", case.get("prelude"))
+            rr = check(c)
+            n += 1
+            for f in rr.findings:
+                r.fail(f["key"], "[sweep configuration %s] %s" % (canon(c)[:400], f["msg"]))
+        r.notes["configs"] = n
+        r.label("slice%d" % k)
+        r.nontrivial = True
+        r.sig = "%s-slice-%d-%d-configs" % (name, k, n)
+        return r
+
+    return Part(name, chk, {"quick": 3 * nslices, "thorough": 3 * nslices}, strategy=strat, max_shards=nslices)
+
+
 # --------------------------------------------------------------------------
 # helpers
 
@@ -402,6 +441,8 @@ def worker_main(args):
         nsh = min(args.nshards, part.max_shards)
         if args.worker >= nsh:
             continue
+        os.environ["VERIF_SHARD"] = str(args.worker)
+        os.environ["VERIF_NSHARDS"] = str(nsh)
         t1 = time.time()
         reports.append(run_part_shard(args.prop, part, args.tier, args.seed, args.worker, nsh, known, prelude))
         reports[-1]["wall_s"] = round(time.time() - t1, 2)
